@@ -1,3 +1,60 @@
-(* C14 — statements are added when the corresponding facts file lands *)
-From SV Require Import Bytes Client Transport Server.
-Theorem C14_placeholder : True. Proof. exact I. Qed.
+(* C14 — emulated rename never loses or overwrites a script.
+
+   Model: ms/RenameAbs.v [rename_abs]: the decision logic of Client.renamescript (server without
+   VERSION) run directly against the reference server's [exec_command] (ms/Server.v) under a
+   fault plan (each of the up to five commands answered normally, NO, BYE or not at all).
+   Proofs: ms/RenameFacts.v.  The byte-level client (ms/Client.v renamescript against srv_react)
+   is tied to rename_abs and to managesieve.py by the exhaustive correspondence check of C14
+   (initial states x fault placement x bodies); C05/C08/C09/C17 are the lemmas of that refinement. *)
+From Coq Require Import List NArith Bool.
+From SV Require Import Bytes Server RenameAbs RenameFacts.
+Import ListNotations.
+
+(* every script other than old and new is untouched, whatever fails *)
+Theorem C14_untouched :
+  forall plan s s' old new r, rename_abs plan s old new = (r, s') ->
+  forall n c, n <> old -> n <> new ->
+              (assoc_get n (s_store s) = Some c <-> assoc_get n (s_store s') = Some c).
+Proof. exact RenameFacts.rename_untouched. Qed.
+Print Assumptions C14_untouched.
+
+(* an existing target (active or not) is never written: nothing changes and no success is reported *)
+Theorem C14_existing_target :
+  forall plan s s' old new r, rename_abs plan s old new = (r, s') ->
+  forall c, assoc_get new (s_store s) = Some c -> s' = s /\ r <> RTrue.
+Proof. exact RenameFacts.rename_existing_target. Qed.
+Print Assumptions C14_existing_target.
+
+(* nothing is lost: the content of old is still there under the old or the new name *)
+Theorem C14_nothing_lost :
+  forall plan s s' old new r, rename_abs plan s old new = (r, s') ->
+  forall c, assoc_get old (s_store s) = Some c ->
+            assoc_get old (s_store s') = Some c \/ assoc_get new (s_store s') = Some (norm c).
+Proof. exact RenameFacts.rename_nothing_lost. Qed.
+Print Assumptions C14_nothing_lost.
+
+(* success: old gone, new holds the old content, active iff old was *)
+Theorem C14_success :
+  forall plan s s' old new r, rename_abs plan s old new = (r, s') ->
+  NoDup (map fst (s_store s)) -> active_ok s -> new <> [] -> r = RTrue ->
+  old <> new /\
+  assoc_get old (s_store s') = None /\
+  (exists c, assoc_get old (s_store s) = Some c /\ assoc_get new (s_store s') = Some (norm c)) /\
+  (s_active s' = Some new <-> s_active s = Some old).
+Proof. exact RenameFacts.rename_success_C14. Qed.
+Print Assumptions C14_success.
+
+(* an active script other than old stays active *)
+Theorem C14_other_active :
+  forall plan s s' old new r, rename_abs plan s old new = (r, s') ->
+  forall a, s_active s = Some a -> a <> old -> s_active s' = Some a.
+Proof. exact RenameFacts.rename_other_active. Qed.
+Print Assumptions C14_other_active.
+
+(* the result is True, False or Error by construction of aresult; server invariants are kept *)
+Theorem C14_invariants :
+  forall plan s s' old new r, rename_abs plan s old new = (r, s') ->
+  NoDup (map fst (s_store s)) -> active_ok s ->
+  NoDup (map fst (s_store s')) /\ active_ok s'.
+Proof. exact RenameFacts.rename_invariants. Qed.
+Print Assumptions C14_invariants.
